@@ -69,7 +69,7 @@ func cacheNamesMain(args mon.Args) {
 			}
 		}
 	}
-	var lives, announced, decodedAfter int64
+	var lives, announced, decodedAfter, ballast int64
 	for ni, nm := range namings {
 		g := mon.NewRNG(run.Seed, "e2e-names", ni)
 		pdir := filepath.Join(dir, fmt.Sprintf("names%d", ni))
@@ -200,6 +200,30 @@ func cacheNamesMain(args mon.Args) {
 				announced++
 			}
 		}
+		// ballast: further exporters announce one template each, so that saving a cache takes milliseconds and the two
+		// concurrent saves at shutdown really overlap
+		for _, bl := range []struct {
+			proto string
+			n     int
+		}{{"ipfix", 5000}, {"nf9", 4000}} {
+			oo := o
+			oo.Varlen = bl.proto == "ipfix"
+			for i := 0; i < bl.n; i++ {
+				t := wire.GenTemplate(g, uint16(400+i%5), oo)
+				t.Fields, t.Scope, t.Options = t.All(), nil, false
+				ann, _ := wire.EncodeFlow(bl.proto, []uint32{1, 2, 3, 4}, []wire.Set{{Kind: wire.SetTemplate, Templates: []*wire.Template{t}}})
+				snd.send(net.IPv4(127, 67, byte(i/250), byte(1+i%250)).To4(), ports[bl.proto], ann)
+				if i%100 == 99 {
+					for w := 0; w < 200; w++ {
+						if fl, err := getFlow("127.0.0.1", statsPort); err == nil && int(fl[protoNames[bl.proto].js]["UDPCount"]) >= i+1 {
+							break
+						}
+						time.Sleep(2 * time.Millisecond)
+					}
+				}
+			}
+			ballast += int64(bl.n)
+		}
 		time.Sleep(100 * time.Millisecond) // the announcements are taken in before the first data goes out
 		for _, proto := range []string{"ipfix", "nf9"} {
 			sqs := make([]uint32, len(keys))
@@ -244,6 +268,16 @@ func cacheNamesMain(args mon.Args) {
 			continue
 		}
 		life1Log := col.stderr()
+		// the collector's own word: a save that reports failure in a directory where nothing prevents writing
+		if i := strings.Index(life1Log, "dump template"); i >= 0 {
+			j := strings.LastIndex(life1Log[:i], "\n") + 1
+			w := wit(col, "the collector reports that saving a template cache failed")
+			run.Violation("names:save-reported-failure", fmt.Sprintf("%s: at the clean stop of the first life the collector reports: %s", desc, clip(life1Log[j:], 300)), w)
+			col.kill()
+			sink.close()
+			snd.close()
+			continue
+		}
 		// life 2: same configuration, same working directory; data only
 		col = start()
 		if col == nil {
@@ -305,9 +339,10 @@ func cacheNamesMain(args mon.Args) {
 		snd.close()
 	}
 	run.Set("collector_lives", lives)
+	run.Set("ballast_templates_announced_by_other_exporters", ballast)
 	run.Set("templates_announced_and_acknowledged_in_the_first_life", announced)
 	run.Set("data_messages_decoded_after_the_restart_without_templates", decodedAfter)
-	run.SetRule("end-to-end tier: the real binary with both template caches enabled, two lives per cache-file naming (names sharing a stem in one directory, relative names with a working directory that is not the configuration directory, names with several dots; thorough adds the same name in two directories, relative sub-directory names, names without extension). Life 1: 3 exporters x 3 template ids announce over IPFIX and over NetFlow v9 (same addresses and ids, different definitions) and each template is acknowledged by a decoded message; SIGTERM (both caches are saved concurrently). Life 2, same configuration and working directory: data without templates must be published exactly as its stand-alone decode under the template announced over its own protocol. distinct = naming")
+	run.SetRule("end-to-end tier: the real binary with both template caches enabled, two lives per cache-file naming (names sharing a stem in one directory, relative names with a working directory that is not the configuration directory, names with several dots; thorough adds the same name in two directories, relative sub-directory names, names without extension). Life 1: 3 exporters x 3 template ids announce over IPFIX and over NetFlow v9 (same addresses and ids, different definitions) and each template is acknowledged by a decoded message, 5000 / 4000 further exporters announce one template each (saving takes milliseconds, the two saves overlap); SIGTERM (both caches are saved concurrently). Life 2, same configuration and working directory: data without templates must be published exactly as its stand-alone decode under the template announced over its own protocol. distinct = naming")
 	run.Assume("where a relative name is resolved is the collector's business; only that both lives of one configuration agree on it is judged")
 	run.Finish()
 }
